@@ -549,18 +549,21 @@ PROPS["C10"] = {"gen": c10,
 BFS_ALG = {0: "findVertexPredecessors", 1: "findAllVertexPredecessors", 2: "findGeodesics", 3: "findAllGeodesics", 4: "findGeodesicsFromVertex", 5: "findAllGeodesicsFromVertex", 6: "findPathToVertexFromPredecessors"}
 
 
-def bfs_ob(prop, und, n, alg, fixs=None, **kw):
+def bfs_ob(prop, und, n, alg, fixs=None, fixt=None, **kw):
     nm = max(n, 1)
     defs = caps(n, n)
-    qcap = nm * nm + 2 if alg in (1, 3, 5) else nm + 1
-    front = nm + 1 if alg in (2, 3, 4, 5, 6) else 0          # push_front zone: only the path reconstructions use it
+    pmax = {1: 1, 2: 2, 3: 3, 4: 7}.get(nm, nm * nm)         # most entries the stack of partial paths can hold on n vertices
+    qcap = (nm * nm + 2) if prop == "C19" else max(nm + 1, pmax + 1 if alg in (3, 5) else 0)
+    front = (nm if alg in (2, 4, 6) else max(nm - 1, 1)) if alg in (2, 3, 4, 5, 6) else 0  # push_front zone: a path has at most n vertices (the all-paths enumeration pushes the last one at the back)
     lcap = front + nm + 1
     defs.update({"UND": und, "ALG": alg, "VERIF_LIST_FRONT": front, "VERIF_LIST_CAP": lcap, "VERIF_QUEUE_CAP": qcap})
     if fixs is not None:
         defs["FIXS"] = fixs
+    if fixt is not None:
+        defs["FIXT"] = fixt
     b = ("findVertexPredecessors=%d,findAllVertexPredecessors&#0=%d,findAllVertexPredecessors&#1=%d,findMultiplePathsToVertexFromPredecessors=%d,findPathToVertexFromPredecessors=%d,valid_path=%d,default=%d"
          % (nm + 2, qcap + 2, nm + 2, qcap + 2, nm + 2, nm + 3, lcap + 2))
-    ob = {"id": "%s/%s/n%d/%s%s" % (prop, "und" if und else "dir", n, BFS_ALG[alg], "" if fixs is None else "-s%d" % fixs), "src": "bfs.cpp", "defs": defs, "bounds": "unordered_map=%d," % (nm * nm + 2) + b, "count_ub": False}
+    ob = {"id": "%s/%s/n%d/%s%s%s" % (prop, "und" if und else "dir", n, BFS_ALG[alg], "" if fixs is None else "-s%d" % fixs, "" if fixt is None else "-t%d" % fixt), "src": "bfs.cpp", "defs": defs, "bounds": "unordered_map=%d," % (nm * nm + 2) + b, "count_ub": False}
     ob.update(kw)
     return ob
 
@@ -570,13 +573,25 @@ def c11(tier):
     for und in (0, 1):
         for alg in (0, 1, 2, 3, 4, 5, 6):
             for n in ((1, 2, 3) if tier == "quick" else (1, 2, 3, 4)):
+                heavy = alg in (3, 5)
                 if n == 4:
+                    if alg in (3, 4, 5):
+                        continue                      # all-geodesics on 4 vertices: beyond the budget (not claimed)
                     for s in range(4):
-                        if alg in (4, 5) :
-                            continue
-                        obs.append(bfs_ob("C11", und, n, alg, fixs=s, timeout=3000, mem_gb=12, optional_reach=[""]))
+                        obs.append(bfs_ob("C11", und, n, alg, fixs=s, timeout=3400, mem_gb=14, optional_reach=[""]))
+                elif alg == 5 and n == 2 and tier == "quick":
+                    continue                          # findAllGeodesicsFromVertex on 2 vertices: thorough tier
+                elif heavy and n == 3:
+                    if tier == "quick":
+                        continue                      # all-geodesics on 3 vertices: thorough tier, one sub-query per (source, destination)
+                    for s in range(n):
+                        for t in range(n):
+                            obs.append(bfs_ob("C11", und, n, alg, fixs=s, fixt=t, optional_reach=[""], mem_gb=14, timeout=3400))
+                elif alg == 1 and n == 3:
+                    for s in range(n):
+                        obs.append(bfs_ob("C11", und, n, alg, fixs=s, optional_reach=[""], mem_gb=8))
                 else:
-                    obs.append(bfs_ob("C11", und, n, alg, optional_reach=[""] if n < 3 else []))
+                    obs.append(bfs_ob("C11", und, n, alg, optional_reach=[""] if n < 3 or alg == 1 else [], mem_gb=8 if heavy else 4))
     return obs
 
 
@@ -638,7 +653,7 @@ def c19(tier):
 
 
 PROPS["C11"] = {"gen": c11,
-    "bounds": {"quick": "every directed and undirected graph on 1..3 vertices (cycles, self-loops, several components), every neighbour order, every source and destination", "thorough": "also 4 vertices (one sub-query per source)"},
+    "bounds": {"quick": "every directed and undirected graph on 1..3 vertices (cycles, self-loops, several components), every neighbour order, every source and destination; findAllGeodesics on 1..2 vertices, findAllGeodesicsFromVertex on 1 vertex", "thorough": "all-geodesics on 3 vertices (one sub-query per source/destination pair); the predecessor searches, findGeodesics and findPathToVertexFromPredecessors on 4 vertices (one sub-query per source)"},
     "outside": "graphs of 5-6 vertices and random larger graphs named by the property text (N=5 does not finish within the budget); labelled graph types (the searches do not read labels)",
     "explanation": "Results are compared with hop distances and shortest-path counts computed in the harness by n rounds of relaxation over the symbolic adjacency matrix; returned paths are checked edge by edge; all-geodesics results for count, validity and pairwise difference.",
     "assumptions": ["graph states satisfy RI_dir / RI_und", "queue/stack capacities of the model (n*n+2 for the all-predecessor searches) are not exceeded (capacity overflow is an assumption)"]}
